@@ -414,6 +414,15 @@ def main(argv):
         if rc != 0:
             proofs_ok = False
             pa_out = out
+    translated = None
+    if getattr(mod, "TRANSLATED_KERNELS", False):
+        from harness import translate
+
+        tok, tmsg, _ = translate.check()
+        translated = {"ok": tok, "message": tmsg, "kernels": list(translate.KERNELS)}
+        if not tok:
+            proofs_ok = False
+            pa_out = "translated kernels: " + tmsg
     broken_thm = None
     if not proofs_ok:
         m = re.search(r'File "([^"]+)", line (\d+)', pa_out if broken_files == [] else build_log)
@@ -490,8 +499,9 @@ def main(argv):
 
     # 5. evidence --------------------------------------------------------------
     n_suites = len(ctx.suites)
-    obligations = len(thms) + n_suites
-    discharged = (len(thms) if proofs_ok else 0) + sum(1 for s in ctx.suites if not s["mismatches"] and not s["errors"])
+    n_tr = len(translated["kernels"]) if translated else 0
+    obligations = len(thms) + n_suites + n_tr
+    discharged = (len(thms) if proofs_ok else 0) + sum(1 for s in ctx.suites if not s["mismatches"] and not s["errors"]) + (n_tr if translated and translated["ok"] else 0)
     level = getattr(mod, "LEVEL", "proof")
     ev = {
         "property_id": prop,
@@ -510,6 +520,7 @@ def main(argv):
             ] + list(getattr(mod, "TRUSTED", [])),
             "theorems": thms,
             "coqchk": coqchk_summary,
+            "translated_kernels": translated,
             "suites": [{"suite": s["suite"], "cases": s["cases"], "mismatches": len(s["mismatches"]),
                         "errors": len(s["errors"])} for s in ctx.suites],
             "evaluations": max(ctx.evaluations + sum(s["cases"] for s in ctx.suites), 1),
